@@ -254,6 +254,35 @@ func init() {
 			}
 		}
 
+		c.Rule("C06g record first: increaseDelegation / decreaseDelegation write the delegation record (SetDelegation / RemoveDelegation) on every path before the stake-entry update Keeper.AfterDelegationModified, which may fail (self delegation below the minimum): the BeginBlock slash handling calls this chain outside a transaction and ignores the error, so a record that is only written after a fallible step is not written at all on that path and the provider side stops mirroring the validator side. The hook-disabled flag is read by the two staking hooks only; the slash handling's BalanceDelegator must not see it")
+		for _, fnm := range []string{"increaseDelegation", "decreaseDelegation"} {
+			f := c.Fn(dk + "Keeper." + fnm)
+			if f == nil {
+				continue
+			}
+			adm := c.CallsByName(f, false, dk+"Keeper.AfterDelegationModified")
+			if len(adm) == 0 {
+				c.Fail("C06g/"+fnm+"/record-written-before-stake-entry-update", c.P.Pos(f.Pos()), "the stake entry is no longer updated from "+fnm)
+				continue
+			}
+			isWrite := func(in ssa.Instruction) bool {
+				cl := ir.CallOf(in)
+				if cl == nil {
+					return false
+				}
+				n := ir.CalleeName(cl)
+				return n == dk+"Keeper.SetDelegation" || n == dk+"Keeper.RemoveDelegation"
+			}
+			for _, s := range adm {
+				if c.mustPassBefore(f, s.Instr, isWrite) {
+					c.OK("C06g/"+fnm+"/record-written-before-stake-entry-update", c.P.InstrPos(s.Instr), "SetDelegation/RemoveDelegation on every path to AfterDelegationModified")
+				} else {
+					c.Fail("C06g/"+fnm+"/record-written-before-stake-entry-update", c.P.InstrPos(s.Instr), "a path reaches the fallible stake-entry update before the delegation record is written: when it fails under the error-ignoring BeginBlock slash handling the record keeps its old amount")
+				}
+			}
+		}
+		c.RequireCallers("C06g", dk+"Keeper.GetDisableDualstakingHook", dk+"Hooks.AfterDelegationModified", dk+"Hooks.BeforeDelegationRemoved")
+
 		c.Rule("C06f hook disabling: SetDisableDualstakingHook is called only by the ante RedelegationFlager; a transaction gets the flag only if it carries redelegations and nothing else: every message that is not a staking MsgBeginRedelegate sets the `others` flag on every path, and redelegations&&others rejects the transaction before the flag is written")
 		c.RequireCallers("C06f", dk+"Keeper.SetDisableDualstakingHook", "x/dualstaking/ante.RedelegationFlager.DisableRedelegationHooks")
 		if f := c.Fn("x/dualstaking/ante.RedelegationFlager.DisableRedelegationHooks"); f != nil {
